@@ -17,6 +17,7 @@ type StrTok struct {
 	kind string  // "ip" | "cidr"
 	ip   []*Term // 16 bytes (canonical To16 form) for "ip"; 4 or 16 for "cidr"
 	ones int
+	pt   *ProtoTok // kind "proto": a marshalled message converted to string
 }
 
 func (w *World) to16(bs []*Term) []*Term {
@@ -263,6 +264,29 @@ func enumStringIntrinsic(w *World, t *Thread, fr *frame, fn *ssa.Function, args 
 }
 
 func init() {
+	// metrics: a statsd-like side channel, environment
+	nopM := func(w *World, t *Thread, fr *frame, fn *ssa.Function, args []Value) Value { return w.zeroResults(fn) }
+	reg("(*"+repoMod+"/pkg/metrics.Metrics).Add", nopM)
+	reg("github.com/sirupsen/logrus.New", func(w *World, t *Thread, fr *frame, fn *ssa.Function, args []Value) Value {
+		cell := new(Value)
+		*cell = w.zero(deref(fn.Signature.Results().At(0).Type()))
+		return cell
+	})
+	reg(repoMod+"/pkg/metrics.NewMetrics", func(w *World, t *Thread, fr *frame, fn *ssa.Function, args []Value) Value {
+		cell := new(Value)
+		*cell = w.zero(deref(fn.Signature.Results().At(0).Type()))
+		return cell
+	})
+	// ed25519: sign = token over (key, message); nothing else verifies
+	edSign := func(w *World, t *Thread, fr *frame, fn *ssa.Function, args []Value) Value {
+		out := make([]Value, 64)
+		for i := range out {
+			out[i] = w.tt.Fresh("ed25519sig", 8)
+		}
+		return out
+	}
+	reg("github.com/refraction-networking/ed25519.Sign", edSign)
+	reg("crypto/ed25519.Sign", edSign)
 	// loading the subnet file is environment: a reload yields a fresh selector (or fails)
 	reg(repoMod+"/pkg/phantoms.GetPhantomSubnetSelector", func(w *World, t *Thread, fr *frame, fn *ssa.Function, args []Value) Value {
 		st := fn.Signature.Results().At(0).Type()
